@@ -12,7 +12,8 @@ RULE = ("well-formed PELs with UD / ED / hexdump-only / unknown-id sections: BMC
         "import, plugins disabled, plugin raising / returning None / raising ImportError while parsing, BMC subtypes "
         "2/4/other), payload lengths 1..65527 over several byte classes.  Oracle: the built-in formats show the "
         "content; every other case carries a hex dump that an independent parser turns back into exactly the payload, "
-        "plus an Error note when a parser failed.  Non-trivial: has such a section; distinct = distinct bytes.")
+        "plus an Error note when a parser failed.  Payloads marked JSON that are not (incl. a NUL in the middle: two terminated "
+        "records back to back) are hex-dumped whole.  Non-trivial: has such a section; distinct = distinct bytes.")
 ASSUMPTIONS = ["invalid JSON / invalid UTF-8 in the built-in formats is outside the statement",
                "JSON user data keys never collide with the three section header keys",
                "fixture plugins (vf/fixtures/plugins) stand for 'another distribution installed more parser modules'"]
